@@ -361,6 +361,11 @@ M('F47R', 'src/xdoctest/checker.py', """        if got == want or got == want + 
 M('F47bR', 'src/xdoctest/checker.py', """    blankline_pattern = r'^[^\\S\\n]*{}[^\\S\\n]*$'.format(re.escape(BLANKLINE_MARKER))
     new_text = re.sub(blankline_pattern, '', text, flags=re.MULTILINE)""", """    blankline_pattern = re.escape(BLANKLINE_MARKER)
     new_text = re.sub(blankline_pattern, '', text, flags=re.MULTILINE)""", ['C20'], 'F47 repair reverted (2): the marker is replaced also inside a line of the want')
+M('F49R', 'src/xdoctest/doctest_example.py', """                        if self.mode == 'pytest':
+                            raise
+                        self._skipped_parts = list(self._parts)""", """                        if True:
+                            raise
+                        self._skipped_parts = list(self._parts)""", ['C15'], 'F49 repair reverted: Skipped raised by the import of the module aborts the native runner')
 M('F17R', 'src/xdoctest/doctest_example.py', """                part_directive = None
                 try:
                     try:
@@ -390,8 +395,9 @@ M('E17', 'src/xdoctest/doctest_example.py', "        self.global_namespace.clear
   ['C11'], 'doctest assignments written back to the module globals')
 
 
-M('U4', 'src/xdoctest/doctest_example.py', "        with warnings.catch_warnings(record=True) as self.warn_list:\n            for partx, part in enumerate(self._parts):",
-  "        self.warn_list = []\n        if True:\n            for partx, part in enumerate(self._parts):", ['C12', 'C11'], 'catch_warnings around the part loop dropped')
+M('U4', 'src/xdoctest/doctest_example.py', "        with _restored_last_value(), warnings.catch_warnings(record=True) as self.warn_list:\n            for partx, part in enumerate(self._parts):",
+  "        self.warn_list = []\n        with _restored_last_value():\n            for partx, part in enumerate(self._parts):", ['C12', 'C11'], 'catch_warnings around the part loop dropped')
+M('F48R', 'src/xdoctest/doctest_example.py', "        with _restored_last_value(), warnings.catch_warnings(record=True) as self.warn_list:", "        with warnings.catch_warnings(record=True) as self.warn_list:", ['C11'], 'F48 repair reverted: builtins._ set by a doctest stays behind')
 
 
 M('I2', 'src/xdoctest/utils/util_import.py', """        # Check for directory-based modules (has presidence over files)
